@@ -105,6 +105,25 @@ theorem C02_derva_slice_s (v : View) (a : Addr) (size align sentinel : Nat) (hs 
     · exact Out.clean_err _
   · exact Out.clean_err _
 
+/-- `derva_slice_f` / `deref_slice_f` with ANY callable, stateful ones included (`stop i x` = the answer
+of call `i` on element `i`): a slice or an error, for every element size ≥ 1 -/
+theorem C02_derva_slice_fi (v : View) (a : Addr) (size align : Nat) (stop : Nat → Nat → Bool) (hs : 1 ≤ size)
+    (hp : isPow2 align = true) : (v.dervaSliceFI a size align stop).Clean := by
+  unfold View.dervaSliceFI
+  rcases v.at_clean a 0 align hp with ⟨r, h⟩ | ⟨e, h⟩ <;> rw [h]
+  · simp only
+    rcases sliceFLoopI_shape (b := v.b) (off := r.off) (blen := r.len) (size := size) (stop := stop)
+      (r.len + 2) 0 with ⟨n, hn⟩ | hn | hn
+    · rw [hn]; exact Out.clean_ok _
+    · rw [hn]; exact Out.clean_err _
+    · exact absurd hn (sliceFLoopI_ne_diverge hs _ _ (by omega) (by omega))
+  · exact Out.clean_err _
+
+/-- the stateless special case (`F: Fn`) -/
+theorem C02_derva_slice_f (v : View) (a : Addr) (size align : Nat) (stop : Nat → Bool) (hs : 1 ≤ size)
+    (hp : isPow2 align = true) : (v.dervaSliceF a size align stop).Clean := by
+  rw [View.dervaSliceF_eq_I]; exact C02_derva_slice_fi v a size align _ hs hp
+
 theorem C02_derva_cstr (v : View) (a : Addr) : (v.dervaCStr a).Clean := by
   unfold View.dervaCStr
   rcases v.at_clean a 0 1 isPow2_one with ⟨r, h⟩ | ⟨e, h⟩ <;> rw [h]
